@@ -76,6 +76,14 @@ fn gen_cose_key(rng: &mut impl Rng) -> CoseKey {
         let mut v: Vec<u8> = (0..n).map(|_| rng.gen()).collect();
         match rng.gen_range(0..8u8) { 0 => { if n > 0 { v[0] = 0; } } 1 => { for b in v.iter_mut().take(3) { *b = 0; } } 2 => { for b in v.iter_mut() { *b = 0; } } 3 => { for b in v.iter_mut() { *b = 0xff; } } _ => {} }
         v };
+    // genuine P-256 points too (random coordinates are practically never on the curve): explicit y, and point-compressed with either sign bit
+    if rng.gen_bool(0.2) {
+        use p256::elliptic_curve::sec1::ToEncodedPoint;
+        let scalar: [u8; 32] = { let mut b = [0u8; 32]; rng.fill_bytes(&mut b); b[0] &= 0x7f; b[31] |= 1; b };
+        let pt = p256::SecretKey::from_slice(&scalar).unwrap().public_key().to_encoded_point(false);
+        let (x, y) = (pt.x().unwrap().to_vec(), pt.y().unwrap().to_vec());
+        return CoseKey::EC2 { crv: EC2Curve::P256, x, y: match rng.gen_range(0..3u8) { 0 => EC2Y::Value(y), 1 => EC2Y::SignBit(y[31] & 1 == 1), _ => EC2Y::SignBit(y[31] & 1 == 0) } };
+    }
     if rng.gen_bool(0.65) {
         let crv = [EC2Curve::P256, EC2Curve::P384, EC2Curve::P521, EC2Curve::P256K][rng.gen_range(0..4)].clone();
         let n = len(rng); let x = bytes(rng, n);
@@ -122,7 +130,9 @@ pub fn run(ctx: &mut Ctx) {
     let key = world::key_from(&mut rng);
     for k in 0..n {
         // SessionData: every presence combination
-        let data = if k % 2 == 0 { Some(ByteStr::from((0..rng.gen_range(0..300)).map(|_| rng.gen()).collect::<Vec<u8>>())) } else { None };
+        // data: absent, or present with a length from the boundaries (the EMPTY byte string is a value of its own, not "absent") or any
+        let dlen = if k % 4 == 0 { [0usize, 1, 16, 23, 24, 255, 256][(k / 4) % 7] } else { rng.gen_range(0..300) };
+        let data = if k % 2 == 0 { Some(ByteStr::from((0..dlen).map(|_| rng.gen()).collect::<Vec<u8>>())) } else { None };
         let status = match k % 4 { 0 => None, 1 => Some(SessStatus::SessionEncryptionError), 2 => Some(SessStatus::CborDecodingError), _ => Some(SessStatus::SessionTermination) };
         rt(ctx, "SessionData", &SessionData { data, status }, Some("sessionData"));
         // CoseKey incl. odd lengths and every curve
